@@ -10,6 +10,7 @@
 #include <string>
 #include <vector>
 #include <list>
+#include <map>
 #include <stdexcept>
 #include <cstdint>
 #include <cstdlib>
@@ -140,8 +141,19 @@ int main() {
         try {
             if (fld.size() > 2 && fld[0] == 'q' && fld[1] == ':') {
                 std::vector<std::string> f = split(fld, ':');
-                GFqDom<int64_t> F((uint64_t)atol(f[1].c_str()), (uint64_t)atol(f[2].c_str()));
-                Run<GFqDom<int64_t> > R(F); out = R.go(op, a);
+                uint64_t P = (uint64_t)atol(f[1].c_str()), e = (uint64_t)atol(f[2].c_str());
+                if (f.size() > 3) {      // prescribed modulus, given as the integer whose base-P digits are its coefficients
+                    static std::map<std::string, GFqDom<int64_t>*> cache;
+                    if (!cache.count(fld)) {
+                        std::vector<int64_t> mp; uint64_t m = strtoull(f[3].c_str(), 0, 10);
+                        for (uint64_t i = 0; i <= e; ++i) { mp.push_back((int64_t)(m % P)); m /= P; }
+                        cache[fld] = new GFqDom<int64_t>(P, e, mp);
+                    }
+                    Run<GFqDom<int64_t> > R(*cache[fld]); out = R.go(op, a);
+                } else {
+                    GFqDom<int64_t> F(P, e);
+                    Run<GFqDom<int64_t> > R(F); out = R.go(op, a);
+                }
             } else {
                 ModP F((int32_t)atol(fld.c_str()));
                 Run<ModP> R(F); out = R.go(op, a);
@@ -149,7 +161,7 @@ int main() {
         } catch (Exhausted&) { out = "EXHAUSTED"; }
         catch (const char* m) { out = std::string("THROW ") + m; }
         catch (std::exception& e) { out = std::string("EXN ") + e.what(); }
-        std::cout << out << " #" << g_pos << "\n";
+        std::cout << out << " #" << g_pos << std::endl;
     }
     return 0;
 }
